@@ -471,9 +471,13 @@ class ExprSynthesizer(AstVisitor[tuple[ast.expr, Type]]):
         # inherit the span of the sugared code, we could have line breaks there.
         # See https://github.com/quantinuum/guppylang/issues/1301
         span = to_span(node)
-        if span.start.line == span.end.line:
+        if (
+            span.start.line == span.end.line
+            and span.end.column - span.start.column >= len(node.attr)
+        ):
             attr_span = Span(span.end.shift_left(len(node.attr)), span.end)
         else:
+            # The span of desugared code can also be shorter than the attribute name
             attr_span = span
         if module := self._is_python_module(node.value):
             if node.attr in module.__dict__:
